@@ -107,6 +107,8 @@ class Kernel:
         self.clock_ticks, self.pagesize = clock_ticks, pagesize
         self._ntok = 0
         self.kills = []
+        self.deliveries = []
+        self.kill_attempts = []
         self.procs = set()
         self.sysconf = {"SC_CLK_TCK": clock_ticks, "SC_NPROCESSORS_ONLN": 2}
         self.exists_oracle = None  # callable(path) -> bool|SymBool for paths unknown to the model
@@ -263,9 +265,13 @@ class Kernel:
             raise oserr(errno.ESRCH)
         if not -(2**31) <= pid <= 2**31 - 1:
             raise OverflowError("signed integer is greater than maximum")
+        self.kill_attempts.append((pid, sig))
         if pid not in self.procs:
             raise oserr(errno.ESRCH)
+        if pid in getattr(self, "denied", ()):
+            raise oserr(errno.EPERM)
         self.kills.append((pid, sig))
+        self.deliveries.append(("kill", pid, (sig,)))
 
     # ---- install ------------------------------------------------------------------------
     @contextlib.contextmanager
@@ -318,6 +324,12 @@ class Kernel:
         _common._wn.cache_clear()
         if hasattr(_common.supports_ipv6, "cache_clear"):
             _common.supports_ipv6.cache_clear()
+
+    @staticmethod
+    def clamp(v, lo, hi):
+        if isinstance(v, SymInt):
+            return sym.sym_max(lo, sym.sym_min(v, hi))
+        return max(lo, min(v, hi))
 
     # ---- virtual clock -------------------------------------------------------------------
     def timer(self):
@@ -553,6 +565,10 @@ def system_files(k):
     k.stats["/dev/pts/0"] = StatResult(0o020620, rdev=34816)
 
 
+def _decide(c):
+    return bool(c)
+
+
 class CextProxy:
     """Per-process syscalls behind the C extension, as a kernel stub with the same fault gate."""
 
@@ -582,6 +598,40 @@ class CextProxy:
     def getpagesize(self):
         return self.k.pagesize
 
+    # ---- setters: every call that reaches the "kernel" is logged in k.deliveries as (what, pid, args)
+    def _deliver(self, what, pid, *args):
+        self.k.access("syscall", f"/proc/{pid}/@{what}")
+        if not isinstance(pid, int) or isinstance(pid, bool):
+            raise HarnessError(f"{what}: non-concrete pid {pid!r}")
+        if pid not in self.k.procs:
+            raise oserr(errno.ESRCH)
+        if pid in getattr(self.k, "denied", ()):
+            raise oserr(errno.EPERM)
+        self.k.deliveries.append((what, pid, args))
+
+    def setpriority(self, pid, value):
+        self._deliver("setpriority", pid, value)
+        self.k.settings[pid]["nice"] = self.k.clamp(value, -20, 19)
+
+    def proc_ioprio_set(self, pid, ioclass, value):
+        self._deliver("ioprio_set", pid, ioclass, value)
+        if _decide((ioclass < 0) | (ioclass > 3)) if isinstance(ioclass, SymInt) else not 0 <= ioclass <= 3:
+            raise oserr(errno.EINVAL)
+        self.k.settings[pid]["ioprio"] = (ioclass, value)
+
+    def proc_cpu_affinity_set(self, pid, cpus):
+        self._deliver("sched_setaffinity", pid, tuple(cpus))
+        allowed = self.k.settings[pid].get("allowed", [0, 1, 2, 3])
+        for c in cpus:
+            if not isinstance(c, int) or isinstance(c, bool):
+                raise TypeError(f"sequence of integers expected, got {c!r}")
+            if c < 0:
+                raise ValueError(f"invalid CPU value {c}")
+        eff = sorted(set(c for c in cpus if c in allowed))
+        if not eff:
+            raise oserr(errno.EINVAL)
+        self.k.settings[pid]["affinity"] = eff
+
     def linux_sysinfo(self):
         return self.k.sysinfo
 
@@ -600,8 +650,14 @@ class ResourceProxy:
         self.k.access("syscall", f"/proc/{pid}/@prlimit")
         if pid not in self.k.procs:
             raise oserr(errno.ESRCH)
+        if pid in getattr(self.k, "denied", ()):
+            raise oserr(errno.EPERM)
         if limits is None:
             return self.k.settings[pid]["rlimits"].get(res, (1024, 4096))
+        self.k.deliveries.append(("prlimit", pid, (res, tuple(limits))))
+        soft, hard = limits
+        if _decide(soft > hard) and _decide(hard != -1):
+            raise oserr(errno.EINVAL)
         self.k.settings[pid]["rlimits"][res] = tuple(limits)
 
     def __getattr__(self, n):
